@@ -28,7 +28,7 @@ fn hostile_real_line(rng: &mut Rng) -> String {
     let r = *rng.pick(&["NaN", "inf", "-inf", "-0.0", "0.0", "1e308", "-1e308", "5e-324", "1.5", "nan", "+inf"]);
     let i = *rng.pick(&["9223372036854775807", "-9223372036854775808", "0", "-1", "3037000500", "4611686018427387904", "1"]);
     let ts = *rng.pick(GAP_TIMES);
-    let iv = *rng.pick(&["0:00:00", "2562047788015:12:55", "-2562047788015:12:55", "9223372036854775807:0:0", "0:0:-9223372036854775808", "1:02:03", "99999999999:59:59"]);
+    let iv = *rng.pick(&["0:00:00", "2562047788015:12:55", "-2562047788015:12:55", "9223372036854775807:0:0", "0:0:-9223372036854775808", "1:02:03", "99999999999:59:59", "0:307445734561825861:0", "0:9223372036854775807:59", "1:153722867280912931:5", "0:-307445734561825861:0"]);
     let mut parts = vec![format!("\"k\":{}", json_str(*rng.pick(&["a", "b", ""])))];
     if rng.chance(4, 5) { parts.push(format!("\"r\":{}", json_str(r))); }
     if rng.chance(4, 5) { parts.push(format!("\"i\":{}", i)); }
